@@ -490,6 +490,12 @@ def pool_for(draw, which):
         gen = lambda: draw(S.any_expr(draw(st.integers(1, 4))))  # noqa: E731
     base = [gen() for _ in range(draw(st.integers(1, 2)))]
     pool = list(base)
+    if which == "depend":
+        # wrappers of one child that differ in prefix / scope only (distinct wrappers)
+        b0 = base[0]
+        pool.append(["Sum", [["CommonSubexpression", b0, None, "pymbolic_eval"],
+                             ["CommonSubexpression", b0, "u", "pymbolic_eval"]]])
+        pool.append(["CommonSubexpression", b0, "v", "pymbolic_expr"])
     for _ in range(draw(st.integers(1, 4))):
         b = draw(st.sampled_from(base))
         c = draw(st.integers(0, 7))
@@ -525,7 +531,10 @@ def history_case(draw):
     pool = draw(pool_for(which))
     calls = [[draw(st.integers(0, 7)), draw(st.integers(0, 15))]
              for _ in range(draw(st.integers(3, 20)))]
-    return {"pair": which, "cfg": {"flags": draw(st.integers(0, 26)),
+    cse_flags = [i for i, fl in enumerate(FLAGS) if fl.get("include_cses")]
+    flags = draw(st.sampled_from(cse_flags)) if which == "depend" and draw(
+        st.booleans()) else draw(st.integers(0, 26))
+    return {"pair": which, "cfg": {"flags": flags,
                                    "env": draw(st.integers(0, 1))},
             "pool": pool, "calls": calls, "interleave": draw(st.booleans())}
 
